@@ -75,7 +75,7 @@ package channel
 
 //@ func (*Channel).Read [C01 C06]
 //@   requires RI(c.Q)
-//@   modifies rd, c.Q.queue, c.Q.depth
+//@   modifies rd, c.Q.queue, c.Q.depth, chan(c.Q.depthChan)
 //@   at return set rd = (result.1 == nil ? old(rd) ++ result.0 : old(rd))
 //@   ensures #ri RI(c.Q)
 //@   ensures #nil-on-error result.1 != nil ==> len(result.0) == 0 && rd == old(rd) && c.Q.queue == old(c.Q.queue)
@@ -84,7 +84,7 @@ package channel
 
 //@ func (*Channel).ReadUntilPrompt [C01 C05 C06 C12]
 //@   requires RI(c.Q) && c.PromptSearchDepth >= 0
-//@   modifies rd, c.Q.queue, c.Q.depth, quiet
+//@   modifies rd, c.Q.queue, c.Q.depth, chan(c.Q.depthChan), quiet
 //@   at return set quiet = (result.1 == nil)
 //@   ensures #quiet-iff-prompt-seen quiet <==> (result.1 == nil)
 //@   ensures #ri RI(c.Q)
@@ -95,7 +95,7 @@ package channel
 
 //@ func (*Channel).ReadUntilAnyPrompt [C01 C05 C06 C12]
 //@   requires RI(c.Q) && c.PromptSearchDepth >= 0
-//@   modifies rd, c.Q.queue, c.Q.depth, quiet
+//@   modifies rd, c.Q.queue, c.Q.depth, chan(c.Q.depthChan), quiet
 //@   at return set quiet = (result.1 == nil)
 //@   ensures #quiet-iff-prompt-seen quiet <==> (result.1 == nil)
 //@   ensures #ri RI(c.Q)
@@ -106,8 +106,8 @@ package channel
 //@   loop 2 invariant rangeindex < len(prompts) && RI(c.Q) && rd == old(rd) ++ rb && prb == window(rb, c.PromptSearchDepth)
 
 //@ func (*Channel).ReadUntilExplicit [C01 C05 C06]
-//@   requires RI(c.Q) && c.PromptSearchDepth >= 0
-//@   modifies rd, c.Q.queue, c.Q.depth
+//@   requires RI(c.Q) && c.PromptSearchDepth >= 0 && len(b) <= 4611686018427387903
+//@   modifies rd, c.Q.queue, c.Q.depth, chan(c.Q.depthChan)
 //@   ensures #ri RI(c.Q)
 //@   ensures #nil-on-error result.1 != nil ==> len(result.0) == 0
 //@   ensures #returns-exactly-what-it-consumed result.1 == nil ==> rd == old(rd) ++ result.0
@@ -128,7 +128,7 @@ package channel
 
 //@ func dyn:channel.(*Channel).SendInputB$1:readUntilF
 //@   trusted
-//@   modifies rd, c.Q.queue, c.Q.depth, echoed
+//@   modifies rd, c.Q.queue, c.Q.depth, chan(c.Q.depthChan), echoed
 //@   requires RI(c.Q) && c.PromptSearchDepth >= 0
 //@   ensures RI(c.Q)
 //@   ensures result.1 == nil ==> echoed == arg1
@@ -138,7 +138,7 @@ package channel
 // was produced after exactly input, then one return, were written
 //@ func (*Channel).SendInputB [C01 C05 C06]
 //@   requires RI(c.Q) && c.PromptSearchDepth >= 0
-//@   modifies wire, rd, c.Q.queue, c.Q.depth, echoed, optlog, quiet, alloc()
+//@   modifies wire, rd, c.Q.queue, c.Q.depth, chan(c.Q.depthChan), echoed, optlog, quiet, alloc()
 //@   chaninv cr v => v != nil && (v.err == nil ==> wire == old(wire) ++ input ++ c.ReturnChar)
 //@   at call WithTimeout#1 assert #operation-timeout-threaded arg1 == (op.Timeout == -1 ? c.TimeoutOps : (op.Timeout == 0 ? 86400 * 1000000000 : op.Timeout))
 //@   ensures #nil-payload-on-error result.1 != nil ==> len(result.0) == 0
@@ -148,7 +148,7 @@ package channel
 //@ chanmode (*Channel).SendInputB$1:cr count
 //@ func (*Channel).SendInputB$1 [C01 C05 C06 C12]
 //@   requires RI(c.Q) && c.PromptSearchDepth >= 0
-//@   modifies wire, rd, c.Q.queue, c.Q.depth, echoed, quiet, err, alloc()
+//@   modifies wire, rd, c.Q.queue, c.Q.depth, chan(c.Q.depthChan), chan(cr), echoed, quiet, err, alloc()
 //@   ensures #exactly-one-result chlen(cr) == old(chlen(cr)) + 1
 //@   at call WriteReturn#1 assert #return-only-after-echo echoed == input && wire == old(wire) ++ input
 
@@ -157,7 +157,7 @@ package channel
 //@ func dyn:channel.(*Channel).sendInteractive:readUntilF
 //@   trusted
 //@   requires RI(c.Q) && c.PromptSearchDepth >= 0
-//@   modifies rd, c.Q.queue, c.Q.depth, echoed
+//@   modifies rd, c.Q.queue, c.Q.depth, chan(c.Q.depthChan), echoed
 //@   ensures RI(c.Q)
 //@   ensures result.1 == nil ==> echoed == arg1
 //@   ensures result.1 != nil ==> len(result.0) == 0
@@ -169,7 +169,7 @@ package channel
 //@   requires RI(c.Q) && c.PromptSearchDepth >= 0 && (forall k int :: 0 <= k && k < len(events) ==> events[k] != nil)
 //@   requires cr != nil && !closed(cr) && cr != c.Q.depthChan
 //@   chaninv cr v => v != nil && RI(c.Q)
-//@   modifies wire, rd, c.Q.queue, c.Q.depth, echoed, quiet, alloc()
+//@   modifies wire, rd, c.Q.queue, c.Q.depth, chan(c.Q.depthChan), chan(cr), echoed, quiet, alloc()
 //@   ensures #exactly-one-result chlen(cr) == old(chlen(cr)) + 1
 //@   at call Write#1 assert #input-only-after-previous-prompt i == 0 || quiet
 //@   at call Write#1 assert #hidden-inputs-are-redacted arg1 == e.HideInput
@@ -196,7 +196,7 @@ package channel
 
 //@ func (*Channel).authenticateSSH [C10 C11]
 //@   requires RI(c.Q)
-//@   modifies wire, rd, c.Q.queue, c.Q.depth, quiet, alloc()
+//@   modifies wire, rd, c.Q.queue, c.Q.depth, chan(c.Q.depthChan), quiet, alloc()
 //@   ensures #success-means-prompt result != nil && result.err == nil ==> reMatch(c.PromptPattern, result.b)
 //@   at call WriteAndReturn#1 assert #password-only-to-its-prompt-redacted reMatch(c.PasswordPattern, b) && !reMatch(c.PromptPattern, b) && arg0 == p && arg1 && pCount <= 2
 //@   at call WriteAndReturn#2 assert #passphrase-only-to-its-prompt-redacted reMatch(c.PassphrasePattern, b) && !reMatch(c.PasswordPattern, b) && !reMatch(c.PromptPattern, b) && arg0 == pp && arg1 && ppCount <= 2
@@ -206,7 +206,7 @@ package channel
 
 //@ func (*Channel).authenticateTelnet [C10 C11]
 //@   requires RI(c.Q) && c.PromptSearchDepth >= 0
-//@   modifies wire, rd, c.Q.queue, c.Q.depth, quiet, alloc()
+//@   modifies wire, rd, c.Q.queue, c.Q.depth, chan(c.Q.depthChan), quiet, alloc()
 //@   ensures #success-means-prompt result != nil && result.err == nil ==> reMatch(c.PromptPattern, result.b)
 //@   at call WriteAndReturn#1 assert #username-written-redacted-at-most-twice arg0 == u && arg1 && uCount <= 2
 //@   at call WriteAndReturn#2 assert #password-written-redacted-at-most-twice arg0 == p && arg1 && pCount <= 2
@@ -216,7 +216,7 @@ package channel
 // ---- C07: Close closes the transport on every path ---------------------------------------------------------------------------
 
 //@ func (*Channel).Close [C07]
-//@   modifies implClosed, alloc()
+//@   modifies implClosed, chan(c.Errs), alloc()
 //@   ensures #transport-closed implClosed
 
 // the two outer login functions race the login goroutine against a timer; their bodies are not verified (the
@@ -224,12 +224,12 @@ package channel
 //@ func (*Channel).AuthenticateSSH
 //@   noverify
 //@   requires RI(c.Q)
-//@   modifies wire, rd, c.Q.queue, c.Q.depth, quiet, alloc()
+//@   modifies wire, rd, c.Q.queue, c.Q.depth, chan(c.Q.depthChan), quiet, alloc()
 //@   ensures RI(c.Q)
 //@ func (*Channel).AuthenticateTelnet
 //@   noverify
 //@   requires RI(c.Q)
-//@   modifies wire, rd, c.Q.queue, c.Q.depth, quiet, alloc()
+//@   modifies wire, rd, c.Q.queue, c.Q.depth, chan(c.Q.depthChan), quiet, alloc()
 //@   ensures RI(c.Q)
 
 //@ func (*Channel).Open [C07 C10]
@@ -241,12 +241,12 @@ package channel
 //@   noverify
 //@   requires RI(c.Q) && c.PromptSearchDepth >= 0
 //@   ensures RI(c.Q)
-//@   modifies wire, rd, c.Q.queue, c.Q.depth, quiet, alloc()
+//@   modifies wire, rd, c.Q.queue, c.Q.depth, chan(c.Q.depthChan), quiet, alloc()
 //@   ensures result.1 != nil ==> len(result.0) == 0
 //@ func (*Channel).SendInteractive [C05 C06]
 //@   requires RI(c.Q) && c.PromptSearchDepth >= 0 && (forall k int :: 0 <= k && k < len(events) ==> events[k] != nil)
 //@   ensures RI(c.Q)
-//@   modifies wire, rd, sent, c.Q.queue, c.Q.depth, quiet, echoed, optlog, alloc()
+//@   modifies wire, rd, sent, c.Q.queue, c.Q.depth, chan(c.Q.depthChan), quiet, echoed, optlog, alloc()
 //@   chaninv cr v => v != nil && RI(c.Q)
 //@   at call WithTimeout#1 assert #operation-timeout-threaded arg1 == (op.Timeout == -1 ? c.TimeoutOps : (op.Timeout == 0 ? 86400 * 1000000000 : op.Timeout))
 //@   ensures #nil-payload-on-error result.1 != nil ==> len(result.0) == 0
